@@ -33,9 +33,12 @@ ASSUMPTIONS = [
     "no liveness is promised for calls issued while force_stop() is in progress; a coroutine call that was handed to the owner loop before force_stop() was called must still end (result, exception or cancellation)",
     "a plain call issued before force_stop() may never execute if the loop stops first (queued, not guaranteed); if it executes it executes exactly once and in call order",
     "exceptions of plain calls surface in the owner loop's exception handler",
+    "force_stop() called on the owner's own loop: a coroutine call whose awaited future had been resolved before that call must deliver the body's outcome (it only needs one more loop turn); "
+    "futures resolved after the call may end either way; bodies still suspended end with a cancellation",
 ]
 PROBES = ["call.handover", "call.coro_value", "call.coro_slow", "call.coro_careful", "call.coro_raises", "call.plain_none", "call.plain_value", "call.attr", "call.direct", "call.after_close", "force_stop_mid_burst", "force_stop_from_task",
-          "preempted_in_proxy", "thread_switches", "typeerror_on_owner", "cancelled_by_stop", "owner_main_direction", "burst_ge_10"]
+          "preempted_in_proxy", "thread_switches", "typeerror_on_owner", "cancelled_by_stop", "owner_main_direction", "burst_ge_10", "ownerstop.direct", "ownerstop.done_callback",
+          "ownerstop.call_value", "ownerstop.call_raise", "ownerstop.call_late", "ownerstop.call_never"]
 
 KINDS = ("coro_value", "coro_raises", "plain_none", "plain_value", "attr", "coro_slow", "coro_careful")
 
@@ -51,6 +54,7 @@ class Obj:
 
     def __init__(self, rec):
         self.rec = rec
+        self.gates = {}
 
     def _note(self, what, x):
         try:
@@ -85,6 +89,13 @@ class Obj:
         await asyncio.sleep(0)
         raise Boom(x)
 
+    async def coro_gate(self, x):
+        """A body suspended on a future that something on the owner's loop resolves later (like Gateway.reset() waiting for its RSTACK)."""
+        self._note("coro_gate", x)
+        fut = asyncio.get_running_loop().create_future()
+        self.gates[x] = fut
+        return ("gate", await fut)
+
     def plain_none(self, x):
         self._note("plain_none", x)
 
@@ -95,17 +106,132 @@ class Obj:
 
 def plan(tier):
     return {
-        "sweeps": [("fixed", {"burst": b, "stop_at": s, "direction": d}, None) for b in (1, 5) for s in (None, 0, 2) for d in ("worker", "main")],
+        "sweeps": [("fixed", {"burst": b, "stop_at": s, "direction": d}, None) for b in (1, 5) for s in (None, 0, 2) for d in ("worker", "main")]
+        + [("ownerstop", {"n": n, "how": how, "res": res}, None) for n in (1, 3) for how in ("direct", "done_callback") for res in ("value", "raise")],
         "sweep_random_tail": True,
         "exhaustive": "",
-        "random": [("random", {}, 1)],
+        "random": [("random", {}, 4), ("ownerstop", {}, 1)],
         "runs": 6000 if tier == "quick" else None,
         "budget_s": 60 if tier == "quick" else 900,
         "batch": 25,
     }
 
 
+def run_ownerstop(params, tape, detail=False):
+    """force_stop() issued ON the owner's loop (as uart.connect's "connection done" callback does), in the very callback - or the one after -
+    that resolves the futures proxied coroutine calls are suspended on (Gateway.connection_lost: release the reset waiter, stop the thread).
+    A body whose wait was over before force_stop() was called only needs one more turn of its loop: the caller gets what the body
+    returned or raised, not a cancellation."""
+    viol, probes = [], {}
+
+    def probe(n, k=1):
+        probes[n] = probes.get(n, 0) + k
+
+    rec, st, calls = [], {}, []
+    n = params.get("n") or 1 + tape.draw(4, "n")
+    how = params.get("how") or ("direct", "done_callback")[tape.draw(2, "how")]
+
+    async def main(sched, loop):
+        thread = bt.EventLoopThread()
+        await thread.start()
+        wl = thread.loop
+        st["owner_ident"], st["owner_loop"] = sched.ident.get("W1"), wl
+        obj = Obj(rec)
+        proxy = bt.ThreadsafeProxy(obj, wl)
+        for i in range(n):
+            mode = params.get("res") or ("value", "raise", "late", "never")[tape.draw(4, "res")]
+            calls.append({"id": i, "mode": mode, "result": None})
+
+        async def caller(c):
+            try:
+                c["result"] = ("value", await proxy.coro_gate(c["id"]))
+            except asyncio.CancelledError:
+                if asyncio.current_task().cancelling():
+                    raise
+                c["result"] = ("cancelled",)
+            except BaseException as e:  # noqa: BLE001
+                c["result"] = ("raised", e)
+
+        tasks = [loop.create_task(caller(c)) for c in calls]
+        for _ in range(400):
+            if len(obj.gates) == n:
+                break
+            await asyncio.sleep(0.001)
+        st["started"] = len(obj.gates)
+
+        def resolve(c):
+            f = obj.gates[c["id"]]
+            if not f.done():
+                f.set_exception(Boom(c["id"])) if c["mode"] == "raise" else f.set_result(c["id"])
+
+        def on_owner():
+            # runs as ONE callback of the owner's loop
+            st["stop_called"] = True
+            if how == "done_callback":
+                probe("ownerstop.done_callback")
+                conn_done = wl.create_future()
+                conn_done.add_done_callback(lambda _: thread.force_stop())
+                conn_done.set_result(None)  # its callback - force_stop() - runs in the next turn, ahead of the wake-ups scheduled below
+                for c in calls:
+                    if c["mode"] in ("value", "raise"):
+                        c["entitled"] = True
+                        resolve(c)
+            else:
+                probe("ownerstop.direct")
+                for c in calls:
+                    if c["mode"] in ("value", "raise"):
+                        c["entitled"] = True
+                        resolve(c)
+                thread.force_stop()
+            for c in calls:
+                if c["mode"] == "late":
+                    resolve(c)  # after force_stop() was called (direct) / requested: either outcome is accepted
+
+        wl.call_soon_threadsafe(on_owner)
+        for _ in range(600):
+            if all(t.done() for t in tasks) and thread.thread_complete.done():
+                break
+            await asyncio.sleep(0.001)
+        st["pending"] = [c["id"] for c, t in zip(calls, tasks) if not t.done()]
+        for t in tasks:
+            t.cancel()
+        await asyncio.sleep(0)
+
+    outcome, val, sched = run_threaded(tape, main)
+    if outcome not in ("done", "hang"):
+        viol.append(("C20.deadlock", "sim-" + outcome, f"ownerstop: simulation ended with {outcome}: {val!r}"))
+    for (what, x, ident, lp) in rec:
+        if ident != st.get("owner_ident") or lp is not st.get("owner_loop"):
+            viol.append(("C20.where", "wrong-thread", f"ownerstop: body of {what}({x}) did not run on the owner's thread and loop"))
+    if st.get("started") == n and st.get("stop_called"):
+        for c in calls:
+            res = c["result"]
+            probe("ownerstop.call_" + c["mode"])
+            if res is None:
+                viol.append(("C20.relay", "orphaned-by-stop", f"ownerstop({how}): coroutine call {c['id']} ({c['mode']}) was suspended on the owner's loop when force_stop() was called there and never produced a result or a cancellation"))
+            elif c.get("entitled"):
+                want = ("raised", c["id"]) if c["mode"] == "raise" else ("value", ("gate", c["id"]))
+                got = ("raised", res[1].args[0]) if res[0] == "raised" and isinstance(res[1], Boom) else res
+                if got != want:
+                    viol.append(("C20.relay", "runnable-body-cancelled-by-stop", f"ownerstop({how}): the future coroutine call {c['id']} was waiting for had been resolved ({c['mode']}) before force_stop() was called "
+                                 f"on the owner's loop, yet the caller received {res!r} instead of the body's outcome"))
+            elif c["mode"] == "never" and res[0] != "cancelled":
+                viol.append(("C20.relay", "wrong-value", f"ownerstop({how}): coroutine call {c['id']} whose future was never resolved ended with {res!r}"))
+    sstr = "".join(x[0].lower() + x[1:] if len(x) > 1 else x.lower() for x in sched.schedule)
+    if sched.preemptions:
+        probe("preempted_in_proxy", sched.preemptions)
+    probe("thread_switches", sched.switches)
+    modes = tuple(c["mode"] for c in calls)
+    return {"viol": viol, "faults": {"force_stop": 1}, "probes": probes, "vt": sched.vt, "iters": sum(lp.iters for lp in sched.loops.values()),
+            "sig": hashlib.blake2b(repr((sstr, modes, how)).encode(), digest_size=8).digest(), "nontrivial": True,
+            "digest": hashlib.sha256(repr((sstr, modes, how, [c["result"] and c["result"][0] for c in calls], outcome)).encode()).hexdigest()[:16],
+            "sample": {"scenario": "ownerstop", "how": how, "calls": [(c["mode"], c["result"] and c["result"][0]) for c in calls], "schedule_head": sstr[:80]},
+            **({"trace": [f"schedule: {sstr[:2000]}"]} if detail else {})}
+
+
 def run(scenario, params, tape, detail=False):
+    if scenario == "ownerstop":
+        return run_ownerstop(params, tape, detail)
     viol, probes = [], {}
 
     def probe(n, k=1):
